@@ -115,12 +115,12 @@ PROPS = {
         level_text="Every documented log field over the event product (times incl. non-UTC zones, durations, sizes, statuses, addresses with/without port, headers), stock formats and all two-field concatenations with literal text, invalid formats; uint16base16 on all 2^16 values, i32toa on all 2^32 values (thorough) or boundaries + lattice (quick), atoi on boundaries + 10^5/10^6 lattice x pads, uuid.ToString on every byte position x value.",
         level_note="For $remote_host/$upstream_host on a bracketed IPv6 address both the bracketed and the net.SplitHostPort form are accepted (the statement does not choose). Negative durations are outside the alphabet.",
         units=[
-        unit("c20-logger", "logger", ["logger/c20_test.go", "logger/c20_sched_test.go"], "^TestVerifC20(Fields|Formats|Atoi)", engines=SCHED),
-        unit("c20-sched", "logger", ["logger/c20_test.go", "logger/c20_sched_test.go"], "^TestVerifC20Sched", engines=SCHED, race=True, sched_env={"GOMAXPROCS": "1"}, shards={"quick": 1, "thorough": 8},
+        unit("c20-logger", "logger", ["logger/c20_test.go", "logger/c20_sched_test.go", "logger/c20_hist_test.go"], "^TestVerifC20(Fields|Formats|Atoi|History)", engines=SCHED),
+        unit("c20-sched", "logger", ["logger/c20_test.go", "logger/c20_sched_test.go", "logger/c20_hist_test.go"], "^TestVerifC20Sched", engines=SCHED, race=True, sched_env={"GOMAXPROCS": "1"}, shards={"quick": 1, "thorough": 8},
              rewrite=[{"files": ["logger/logger.go"], "opts": ["-imports", "-stmt"]}]),
         unit("c20-formatters", "proxy", PROXY_COMMON + ["proxy/c20_test.go", "proxy/c20_e2e_test.go"], "^TestVerifC20"),
         unit("c20-uuid", "uuid", ["uuid/c20_test.go"], "^TestVerifC20"),
-    ], layers={"quick": ["c20-fields", "c20-formats", "c20-atoi", "c20-formatters", "c20-e2e", "c20-uuid", "c20-sched"], "thorough": ["c20-fields", "c20-formats", "c20-atoi", "c20-formatters", "c20-e2e", "c20-uuid", "c20-sched"]}),
+    ], layers={"quick": ["c20-fields", "c20-formats", "c20-atoi", "c20-history", "c20-formatters", "c20-e2e", "c20-uuid", "c20-sched"], "thorough": ["c20-fields", "c20-formats", "c20-atoi", "c20-history", "c20-formatters", "c20-e2e", "c20-uuid", "c20-sched"]}),
     "C10": dict(level="exploration", engine="benum",
         technique="bounded-exhaustive ClientHello corpus from the real crypto/tls client + every truncation and single-byte substitution, differential against tls.Server on the same bytes",
         level_text="432+ ClientHellos emitted by the real crypto/tls client over the product of version windows, names, ALPN, cipher and curve lists, resumption, plus hand-assembled edge hellos; each is parsed by fabio's 9-byte peek + clientHelloBufferSize + readServerName and by tls.Server (GetConfigForClient) on the same bytes. Every prefix of every hello and every single-byte substitution (12 values) at every offset is parsed: no panic (Go bounds checks make no-panic equal memory safety), buffer bounded by the first record, and names agree whenever the TLS stack still accepts the mutated bytes. clientHelloBufferSize on all 2^16 record lengths.",
@@ -212,7 +212,7 @@ LAYER_UNIT = {"c06-sched": "c06", "c03-select": "c03", "c03-lookuphost": "c03", 
               "c07-request": "c07", "c07-response": "c07", "c07-wire": "c07", "c07-history": "c07", "c08-headers": "c08", "c08-websocket": "c08", "c09-tunnels": "c09", "c09-proxyline": "c09-sockets", "c09-websocket": "c09-ws",
               "c10-sni": "c10", "c12-rules": "c12-rules", "c13-inputs": "c13", "c13-sched": "c13", "c14-registrations": "c14", "c14-multi": "c14", "c15-sources": "c15-config",
               "c15-robust": "c15-config", "c15-junk": "c15-config", "c16-calls": "c16", "c16-history": "c16", "c19-config": "c19", "c19-behaviour": "c19", "c19-history": "c19", "c20-fields": "c20-logger", "c20-e2e": "c20-formatters",
-              "c20-formats": "c20-logger", "c20-atoi": "c20-logger", "c01-health": "c01-health", "c11-publish": "c11-select"}
+              "c20-formats": "c20-logger", "c20-history": "c20-logger", "c20-atoi": "c20-logger", "c01-health": "c01-health", "c11-publish": "c11-select"}
 
 def layer_unit(pid, layer):
     layer = (layer or "").replace(".race", "")
